@@ -110,6 +110,11 @@ def observe_build(formula: str, df, *, output="pandas", full_rank=True, na="drop
                 mm = Formula(formula).get_model_matrix(df, drop_rows=drop_rows, context={}, **kw)
             elif path == "spec":
                 mm = ModelSpec(formula=Formula(formula), **kw).get_model_matrix(df, drop_rows=drop_rows, context={})
+            elif path in ("attached", "sugar-attached"):
+                # the spec attached to an earlier result of the same build, applied to the same data
+                first = model_matrix(formula, df, drop_rows=set(drop_rows) if drop_rows is not None else None, context={}, **kw)
+                spec = first.model_spec
+                mm = spec.get_model_matrix(df, drop_rows=drop_rows, context={}) if path == "attached" else model_matrix(spec, df, drop_rows=drop_rows, context={})
             elif path == "materializer":
                 cls = FormulaMaterializer.for_materializer(materializer) if materializer else FormulaMaterializer.for_data(df)
                 kw.pop("materializer", None)
